@@ -858,7 +858,22 @@ pub fn gen_opts(r: &mut Rng, text: &str) -> OptSpec {
         if r.chance(3, 4) {
             Some([1000, 2500, 4, 25, 25])
         } else {
-            Some([r.below(2000), r.below(5000), r.below(8), r.below(100), r.below(100)])
+            // each penalty may be absent, tiny or dominant; fraction 0 (= "every
+            // single-word last line is short") is a value of its own
+            let v = |r: &mut Rng| match r.below(6) {
+                0 => 0,
+                1 => 1,
+                2 => r.below(10),
+                3 => r.below(100),
+                4 => r.below(5000),
+                _ => r.below(100000),
+            };
+            let frac = match r.below(4) {
+                0 => 0,
+                1 => 1 + r.below(4),
+                _ => r.below(30),
+            };
+            Some([v(r), v(r), frac, v(r), v(r)])
         }
     } else {
         None
